@@ -13,9 +13,14 @@ import Rrtk.Drv.Se
 import Rrtk.Drv.Dv
 import Rrtk.Drv.Rf
 import Rrtk.Drv.Sf
+import Rrtk.Gen.DvTieT1
+import Rrtk.Gen.DvTieT2
+import Rrtk.Gen.DvTieT3
 open Rrtk Rrtk.Drv
 
-def runLine (chk : Bool) (nostd : Bool) (line : String) : String :=
+/-- `tie`: 0 = the model; 1..3 = the generated tie-break variants (terminal command read prefers the partner on equal
+timestamps / device relays prefer the other side / both), see tools/gen.py -/
+def runLine (chk : Bool) (nostd : Bool) (tie : Nat) (line : String) : String :=
   let toks := (line.trimAscii.toString.splitOn " ").filter (· ≠ "")
   let toks := match nostd, toks with
     | true, "q" :: "abs" :: rest => "q" :: "absm" :: rest
@@ -29,21 +34,26 @@ def runLine (chk : Bool) (nostd : Bool) (line : String) : String :=
   | "k" :: rest => runM (runK chk rest)
   | "mp" :: rest => runM (runMp chk rest)
   | "se" :: rest => runM (runSe chk rest)
-  | "dv" :: rest => runM (runDv chk rest)
-  | "wr" :: rest => runM (runWr chk rest)
+  | "dv" :: rest => (match tie with
+      | 1 => runM (Rrtk.TieT1.Drv.runDv chk rest) | 2 => runM (Rrtk.TieT2.Drv.runDv chk rest)
+      | 3 => runM (Rrtk.TieT3.Drv.runDv chk rest) | _ => runM (runDv chk rest))
+  | "wr" :: rest => (match tie with
+      | 1 => runM (Rrtk.TieT1.Drv.runWr chk rest) | 2 => runM (Rrtk.TieT2.Drv.runWr chk rest)
+      | 3 => runM (Rrtk.TieT3.Drv.runWr chk rest) | _ => runM (runWr chk rest))
   | "rf" :: rest => runM (runRf chk rest)
   | "sf" :: rest => runM (runSf rest)
   | _ => "NOIMPL"
 
-partial def loop (chk : Bool) (nostd : Bool) (hin : IO.FS.Stream) (hout : IO.FS.Stream) : IO Unit := do
+partial def loop (chk : Bool) (nostd : Bool) (tie : Nat) (hin : IO.FS.Stream) (hout : IO.FS.Stream) : IO Unit := do
   let line ← hin.getLine
   if line.isEmpty then return ()
-  hout.putStrLn (runLine chk nostd line)
-  loop chk nostd hin hout
+  hout.putStrLn (runLine chk nostd tie line)
+  loop chk nostd tie hin hout
 
 def main (args : List String) : IO Unit := do
   let chk := !(args.contains "nochk")
   let hin ← IO.getStdin
   let hout ← IO.getStdout
-  loop chk (args.contains "nostd") hin hout
+  let tie := if args.contains "tie1" then 1 else if args.contains "tie2" then 2 else if args.contains "tie3" then 3 else 0
+  loop chk (args.contains "nostd") tie hin hout
   hout.flush
